@@ -14,7 +14,7 @@ ID = "C09"
 LEVEL = "exploration"
 RULE = ("matrices (hostile + well-conditioned) x positive c1, c2 with entries in 1e[-3,3], a, b in 1e[-2,2]; X_k = diag(c_k) J, c3 = a c1 + b c2; "
         "Mean, Sum, Constant, ConFIG (guarded), PCGrad and Random (identical draws): |A(X3) - a A(X1) - b A(X2)| <= tau x scale; UPGrad "
-        "(with and without preference vector) along the ladder reg_eps in {1e-2 .. 1e-12}: defect <= 5000 sqrt(reg_eps) x scale on every rung "
+        "(with and without preference vector) along the ladder reg_eps in {1e-2 .. 1e-12}: defect <= 30 rho^-0.3 sqrt(reg_eps) x scale on every rung (rho = smallest relative row norm, judged for rho >= 1e-12), last rung <= 300 reg_eps / (rho^2 gamma) "
         "and <= 1e-2 x scale on the last; non-trivial = m >= 2 and (for UPGrad / PCGrad) the matrix contains a conflict; distinct = case sha1")
 ASSUMPTIONS = ["scale = a s1 |w1|_1 + b s2 |w2|_1 + s3 |w3|_1 with |w|_1 read by a forward hook on the weighting (>= 1)",
                "UPGrad raising at reg_eps below the numerical rank resolution of a rank-deficient Gramian is not judged here (C11 / C03 domain)"]
@@ -24,9 +24,19 @@ LADDER = [1e-2, 1e-4, 1e-6, 1e-8, 1e-10, 1e-12]
 # The property leaves the constant open.  The defect is governed by reg_eps relative to (smallest row scale / s)^2: with row scalings
 # over 6 decades that ratio reaches 1e-12, so the defect only starts to vanish at the last rungs.  Worst ratio observed over 27 000
 # hostile triples: 709 (quick tier: 42); a non-linear look-alike leaves a defect of order 1 x scale on every rung.
-C_UPGRAD = 5000.0
+C_UPGRAD = 30.0  # x rho^-0.3, see c_upgrad()
 LAST_RUNG = 1e-2
 K_LAST = 300.0
+RHO_MIN = 1e-12
+
+
+def c_upgrad(rho):
+    """The property leaves the constant of the sqrt(reg_eps) bound open.  Measured on the unchanged tree (108 000 hostile ladders,
+    thorough seed 9), the worst defect / (sqrt(reg_eps) s |w|_1) grows like rho^-0.3 as the smallest relative row norm rho shrinks
+    (1.1 at 1e-2, 18 at 1e-4, 70 at 1e-6, 220 at 1e-8, 1 600 at 1e-10, 8 600 at 1e-11): the regularised weights of a row of relative
+    size rho are still far from their limit while reg_eps >> rho^2.  C(rho) = 30 rho^-0.3 keeps a factor >= 7 above every
+    measurement (it was a flat 5 000: 60 times looser than necessary at rho = 1e-2, and too tight at 1e-11)."""
+    return C_UPGRAD * rho ** -0.3
 
 
 def shards(tier, seed):
@@ -166,6 +176,15 @@ def check_upgrad(case, ctx):
         ne = 1e-30  # (a matrix at or below the default norm_eps = 1e-4 is legitimately mapped to zero: not the subject here)
     if ne == "default":
         ctx.count("w_upgrad_default_norm_eps")
+    # rho: smallest non-zero row norm relative to the largest singular value, over the three matrices.  The regularisation acts on
+    # the NORMALISED Gramian, where such a row weighs rho^2: the constants below are calibrated for rho >= RHO_MIN (12 decades of
+    # combined row spread - the 6 decades of c times the spread of J itself); beyond, the regularised weights are so far from their
+    # limit that no constant in units of the observed |w| exists, and the ladder is not judged
+    rho = min(float(np.linalg.norm(X, axis=1)[np.linalg.norm(X, axis=1) > 0].min()) / M.smax(X) for X in Xs)
+    if rho < RHO_MIN:
+        ctx.not_judged("upgrad_row_spread_beyond_calibrated_domain")
+        return
+    rbucket = int(np.floor(np.log10(rho)))
     for reg in LADDER:
         desc = {"name": "UPGrad", "pref": case["pref"], "reg_eps": reg}
         if ne != "default":
@@ -182,36 +201,37 @@ def check_upgrad(case, ctx):
             ctx.not_judged(f"upgrad_raised_at_reg_eps={reg:g}")
             all_rungs = False
             continue
-        scale = _scale(outs, recs, Xs, a, b, m, floor=0.0)  # in units of s |w|_1 proper (small preference vectors give small outputs)
+        scale = _scale(outs, recs, Xs, a, b, m)
+        proper = _scale(outs, recs, Xs, a, b, m, floor=0.0)  # units of s |w|_1 proper: small preference vectors give small outputs
         D = float(np.linalg.norm(outs[2] - a * outs[0] - b * outs[1]))
         ratio = D / (np.sqrt(reg) * scale)
         ctx.maximum("upgrad_defect_over_sqrt_reg_scale", ratio)
+        ctx.maximum(f"obs_upgrad_ratio_by_log10_rho/{rbucket}", ratio)
         ctx.count("upgrad_rungs_checked")
-        if not D <= C_UPGRAD * np.sqrt(reg) * scale:
-            ctx.violation("upgrad_defect_exceeds_regularisation_bound", case, {"reg_eps": reg, "defect": D, "scale": scale, "ratio_to_sqrt_reg_scale": ratio})
+        if not D <= c_upgrad(rho) * np.sqrt(reg) * scale:
+            ctx.violation("upgrad_defect_exceeds_regularisation_bound", case, {"reg_eps": reg, "defect": D, "scale": scale, "ratio_to_sqrt_reg_scale": ratio, "rho": rho, "constant": c_upgrad(rho)})
             return
-        last = (reg, D / scale)
+        last = (reg, D / scale, D / max(proper, 1e-300))
     if last is not None and last[0] == LADDER[-1]:
         ctx.maximum("upgrad_defect_at_last_rung_over_scale", last[1])
         ctx.maximum(f"upgrad_defect_at_last_rung_over_scale/{case['class']}", last[1])
         # rho: smallest non-zero row norm relative to the largest singular value, over the three matrices (the regularisation
         # reg_eps acts relative to rho^2 on the normalised Gramian)
-        rho = min(float(np.linalg.norm(X, axis=1)[np.linalg.norm(X, axis=1) > 0].min()) / M.smax(X) for X in Xs)
         ctx.maximum(f"obs_upgrad_last_rung_defect_times_rho2_over_reg/{case['class']}", last[1] * rho ** 2 / last[0])
         U = M.unit_rows(J)
         U = U[np.linalg.norm(U, axis=1) > 0]
         svu = M.singular_values(U)
         pos = svu[svu > 1e-12 * svu[0]]
         gamma = float((pos[-1] / pos[0]) ** 2)  # squared inverse condition number of the unit rows on their range
-        ctx.maximum(f"obs_upgrad_last_rung_defect_times_rho2_gamma_over_reg/{case['class']}", last[1] * rho ** 2 * gamma / last[0])
+        ctx.maximum(f"obs_upgrad_last_rung_defect_times_rho2_gamma_over_reg/{case['class']}", last[2] * rho ** 2 * gamma / last[0])
         # sharper form of "vanishes as reg_eps -> 0": on the normalised Gramian the regularisation competes with rho^2 gamma (smallest
         # row scale squared x squared inverse condition number of the unit rows), so at the last rung the defect is at most
         # K_LAST reg_eps / (rho^2 gamma) x scale (calibrated: <= 12.8 over 108 000 hostile ladders; K_LAST = 300), never below rounding
         sharp = max(1e-9, K_LAST * last[0] / (rho ** 2 * gamma))
         if sharp < LAST_RUNG:
             ctx.count("upgrad_sharp_last_rung_bound_checked")
-            if not last[1] <= sharp:
-                ctx.violation("upgrad_defect_does_not_vanish", case, {"reg_eps": last[0], "defect_over_scale": last[1], "bound": sharp, "rho": rho, "gamma": gamma})
+            if not last[2] <= sharp:
+                ctx.violation("upgrad_defect_does_not_vanish", case, {"reg_eps": last[0], "defect_over_s_w1": last[2], "bound": sharp, "rho": rho, "gamma": gamma})
                 return
         if not last[1] <= LAST_RUNG:
             ctx.violation("upgrad_defect_does_not_vanish", case, {"reg_eps": last[0], "defect_over_scale": last[1]})
